@@ -1466,4 +1466,172 @@ theorem mem_usedUris_of_item {s : Sheet} {it : Item} {u : Cps} (hi : it ∈ shee
   collect_mono (f := fun it => [it]) (g := itemUris) (u := it) (w := u)
     (fun it' h => by simp at h; subst h; exact hu) hi
 
+
+/-! ## witness sheets of the findings in known/C15.json (used by the `…_breaks` theorems) -/
+
+namespace W
+def p : Cps := [0x70]
+def q : Cps := [0x71]
+def z : Cps := [0x7A]
+def a : Cps := [0x61]
+def b : Cps := [0x62]
+def u : Cps := [0x75]
+def u1 : Cps := [0x75, 0x31]
+def u2 : Cps := [0x75, 0x32]
+def u9 : Cps := [0x75, 0x39]
+def d : Cps := [0x64]
+
+/-- `@namespace p "u1"; p|a {…}` -/
+def base : Sheet := (step [] (.parse [] [.ns p u1 false false false, .style [[.q .typeSel (.named p) a]]])).1
+
+/-- `@namespace p "u1"; @namespace q "u2"; p|a {…} q|b {…}` -/
+def two : Sheet := (step [] (.parse [] [.ns p u1 false false false, .ns q u2 false false false,
+  .style [[.q .typeSel (.named p) a]], .style [[.q .typeSel (.named q) b]]])).1
+
+/-- `@namespace "d"; a {…}` -/
+def dflt : Sheet := (step [] (.parse [] [.ns [] d false false false, .style [[.q .typeSel .noPfx a]]])).1
+end W
+
+/-- all @namespace rules of a sheet serialise to a well-formed rule for their own prefix and URI -/
+def allWf (s : Sheet) : Bool := s.all fun r => match r with
+  | .ns n => n.wf
+  | _ => true
+
+
+/-! ## the serialised @namespace rules stay well-formed -/
+
+/-- if the seq starts with a prefix item, it is the rule's prefix -/
+def NsRule.headOk (n : NsRule) : Bool :=
+  match n.seq with
+  | .pfx p' :: _ => decide (p' = n.pfx)
+  | _ => true
+
+def NsRule.good (n : NsRule) : Bool := n.wf && n.headOk
+
+def AllGoodNs (s : Sheet) : Prop := ∀ n, Rule.ns n ∈ s → n.good = true
+
+theorem mkNs_good (p u : Cps) : (mkNs p u).good = true := by
+  by_cases hp : p = [] <;> simp [mkNs, NsRule.good, NsRule.wf, NsRule.headOk, seqCore, hp]
+
+theorem mkNsText_good (p u : Cps) (c0 c1 c2 : Bool) : (mkNsText p u c0 c1 c2).good = true := by
+  by_cases hp : p = [] <;> cases c0 <;> cases c1 <;> cases c2 <;>
+    simp [mkNsText, NsRule.good, NsRule.wf, NsRule.headOk, seqCore, hp]
+
+theorem seqCore_cons_pfx (x : Cps) (rest : List SeqItem) :
+    seqCore (.pfx x :: rest) = (if x = [] then [] else [.pfx x]) ++ seqCore rest := by
+  by_cases hx : x = [] <;> simp [seqCore, List.filter_cons, hx]
+
+theorem setPrefix_good {n : NsRule} {q p' : Cps} {rest : List SeqItem} (hg : n.good = true)
+    (hs : n.seq = .pfx p' :: rest) : (n.setPrefix q).good = true := by
+  simp only [NsRule.good, Bool.and_eq_true, NsRule.wf, NsRule.headOk, hs, decide_eq_true_eq] at hg
+  obtain ⟨hw, hh⟩ := hg
+  rw [seqCore_cons_pfx, hh] at hw
+  have hrest : seqCore rest = [.uri n.uri] := by
+    by_cases hp : n.pfx = []
+    · simpa [hp] using hw
+    · simpa [hp] using hw
+  simp only [NsRule.good, Bool.and_eq_true, NsRule.wf, NsRule.headOk, NsRule.setPrefix, hs, List.set_cons_zero,
+    decide_eq_true_eq, and_true]
+  rw [seqCore_cons_pfx, hrest]
+
+theorem cleanGo_sub (items : Dict) (done rest : List Rule) :
+    ∀ r ∈ (cleanGo items done rest).1, r ∈ done ++ rest := by
+  induction rest generalizing done with
+  | nil => simp [cleanGo]
+  | cons x t ih =>
+    intro r hr
+    cases x with
+    | ns n =>
+      simp only [cleanGo] at hr
+      split at hr
+      · have := ih _ r hr; simpa using this
+      · split at hr
+        · exact hr
+        · have := ih _ r hr
+          simp only [List.mem_append, List.mem_cons] at this ⊢
+          rcases this with h | h
+          · exact Or.inl h
+          · exact Or.inr (Or.inr h)
+    | style y => simp only [cleanGo] at hr; have := ih _ r hr; simpa using this
+    | media y => simp only [cleanGo] at hr; have := ih _ r hr; simpa using this
+    | other y => simp only [cleanGo] at hr; have := ih _ r hr; simpa using this
+
+theorem allGood_insertNs {s : Sheet} {n : NsRule} (idx : Option Nat) (io clean : Bool) (h : AllGoodNs s)
+    (hn : n.good = true) : AllGoodNs (insertNs s n idx io clean).1 := by
+  have hins : ∀ i, AllGoodNs (insertAt s i (.ns n)) := by
+    intro i m hm
+    simp only [insertAt, List.mem_append, List.mem_cons] at hm
+    rcases hm with hm | hm | hm
+    · exact h m (List.mem_of_mem_take hm)
+    · cases hm; exact hn
+    · exact h m (List.mem_of_mem_drop hm)
+  unfold insertNs
+  split
+  · exact h
+  · rename_i index _
+    unfold insertNsAt
+    split
+    · exact h
+    · cases clean with
+      | false => exact hins _
+      | true =>
+        simp only [if_true]
+        have hc : AllGoodNs (cleanNamespaces (insertAt s index (.ns n))).1 := by
+          intro m hm
+          have := cleanGo_sub _ [] _ _ hm
+          exact hins index m (by simpa using this)
+        split
+        · exact hc
+        · split <;> exact hc
+
+theorem allGood_set {pre post : Sheet} {n m : NsRule} (h : AllGoodNs (pre ++ .ns n :: post)) (hm : m.good = true) :
+    AllGoodNs (pre ++ .ns m :: post) := by
+  intro x hx
+  simp only [List.mem_append, List.mem_cons] at hx
+  rcases hx with hx | hx | hx
+  · exact h x (by simp [hx])
+  · cases hx; exact hm
+  · exact h x (by simp [hx])
+
+theorem allGood_sub {s s' : Sheet} (h : AllGoodNs s) (hs : ∀ r ∈ s', r ∈ s) : AllGoodNs s' :=
+  fun n hn => h n (hs _ hn)
+
+theorem deleteRule_sub {s s' : Sheet} {i : Nat} (h : deleteRule s i = .ok s') : ∀ r ∈ s', r ∈ s := by
+  unfold deleteRule at h
+  split at h
+  · simp at h
+  · split at h
+    · simp at h
+    · simp only [Except.ok.injEq] at h; subst h; exact fun r hr => (List.eraseIdx_sublist _ _).subset hr
+  · simp only [Except.ok.injEq] at h; subst h; exact fun r hr => (List.eraseIdx_sublist _ _).subset hr
+
+/-- `rule.prefix = …` is reached only on rules whose seq starts with a prefix item
+(what finding C15-prefix-setter-seq excludes); `parse` has no statement here -/
+def SeqOk (s : Sheet) : Op → Prop
+  | .parse _ _ => False
+  | .setPrefix i _ => ∀ n, s[i]? = some (.ns n) → ∃ p' rest, n.seq = .pfx p' :: rest
+  | .setNs p _ => ∀ i n, findLastNs p s = some (i, n) → ∃ p' rest, n.seq = .pfx p' :: rest
+  | _ => True
+
+theorem allGood_insertStyle {s : Sheet} {x : List Sel} (idx : Option Nat) (io : Bool) (h : AllGoodNs s) :
+    AllGoodNs (insertStyle s (.style x) idx io).1 := by
+  unfold insertStyle
+  simp only
+  split
+  · exact h
+  · split
+    · intro n hn
+      simp only [List.mem_append, List.mem_singleton] at hn
+      rcases hn with hn | hn
+      · exact h n hn
+      · cases hn
+    · split
+      · exact h
+      · intro n hn
+        simp only [insertAt, List.mem_append, List.mem_cons] at hn
+        rcases hn with hn | hn | hn
+        · exact h n (List.mem_of_mem_take hn)
+        · cases hn
+        · exact h n (List.mem_of_mem_drop hn)
+
 end CssVerif.Ns
